@@ -40,6 +40,7 @@ type Sched struct {
 	recent [4]string
 	rpos   int
 	streak int
+	streakT time.Time
 	Spins  uint64
 }
 
@@ -164,13 +165,23 @@ func Y(site string) {
 	if hit {
 		s.streak++
 		if s.streak > 4000 {
-			s.streak -= 16
-			s.Spins++
-			time.Sleep(time.Millisecond)
+			if now := time.Now(); !now.Equal(s.streakT) {
+				// simulated time moves (the loop sleeps by itself, e.g. the id
+				// generator waiting for its clock): not a livelock
+				s.streak, s.streakT = 0, now
+			} else {
+				s.streak -= 16
+				s.Spins++
+				time.Sleep(time.Millisecond)
+				s.streakT = time.Now()
+			}
 		}
 	} else {
 		s.recent[s.rpos&3] = site
 		s.rpos++
+		if s.streak > 0 || s.streakT.IsZero() {
+			s.streakT = time.Now()
+		}
 		s.streak = 0
 	}
 	if s.Prob == 0 {
